@@ -177,14 +177,14 @@ def _try(fn, *a):
         return type(e).__name__
 
 
-def h4_getfont(timeout=150, **kw):
+def h4_getfont(n=3, timeout=150, part=None, **kw):
     import pdfminer.pdfinterp as pi
 
     def fn(ex):
         specs = _fontspecs()
         names = ["f1", "f2", "t1", "t3"]
         caching = ex.choice(2, "caching") == 1
-        hist = [names[ex.choice(4, "h%d" % i)] for i in range(3)]
+        hist = [names[ex.choice(4, "h%d" % i)] for i in range(n)]
         ids = {"f1": 11, "f2": 12, "t1": 13, "t3": 14}
         rm = pi.PDFResourceManager(caching=caching)
         before = {k: _snap(v) for k, v in specs.items()}
@@ -203,7 +203,7 @@ def h4_getfont(timeout=150, **kw):
     def conc(m, info):
         return info
     return core.run_symx("H4_getfont", fn, [pi.PDFResourceManager.get_font], {"fonts": "two Type0 fonts sharing one descendant (only one has ToUnicode), a Type1 and a Type3 font",
-                                                                            "history": "every sequence of 3 get_font calls", "caching": "on/off"}, timeout, concretize=conc)
+                                                                            "history": "every sequence of %d get_font calls" % n, "caching": "on/off"}, timeout, concretize=conc, part=part)
 
 
 def h5_idempotent(timeout=100, **kw):
@@ -254,9 +254,9 @@ def _strings(x):
     return []
 
 
-def h6_mapcache(timeout=100, **kw):
+def h6_mapcache(n=3, timeout=100, **kw):
     from harness import C07
-    r = C07.h5_mapcache(timeout=timeout)
+    r = C07.h5_mapcache(n=n, timeout=timeout)
     r["harness"] = "H6_mapcache"
     return r
 
@@ -273,14 +273,14 @@ def _doc(letter):
     return pdfgen.build(objs)
 
 
-def h7_histories(timeout=200, part=None, **kw):
+def h7_histories(n=3, timeout=200, part=None, **kw):
     from pdfminer import high_level
 
     def fn(ex):
         docs = {"X": _doc("X"), "Y": _doc("Y")}
         expect = {"X": ["X\n\n\x0c", "XX\n\n\x0c"], "Y": ["Y\n\n\x0c", "YY\n\n\x0c"]}
         hist = []
-        for i in range(3):
+        for i in range(n):
             d = "XY"[ex.choice(2, "d%d" % i)]
             mode = ex.choice(3, "m%d" % i)           # whole document / page 0 only / page 1 only
             caching = ex.choice(2, "c%d" % i) == 1
@@ -305,7 +305,7 @@ def h7_histories(timeout=200, part=None, **kw):
         return info
     return core.run_symx("H7_histories", fn, [high_level.extract_text, high_level.extract_pages],
                          {"documents": "two 2-page documents sharing object numbers, font resource name and base encoding but with different Differences",
-                          "history": "every sequence of 3 calls (document, whole/page 0/page 1, caching on/off), optionally followed by interleaved page iterators"}, timeout, concretize=conc, part=part)
+                          "history": "every sequence of %d calls (document, whole/page 0/page 1, caching on/off), optionally followed by interleaved page iterators" % n}, timeout, concretize=conc, part=part)
 
 
 def replay(harness, inp):
@@ -351,6 +351,12 @@ def jobs(tier):
          Job("H5_idempotent", "h5_idempotent", {}, 150), Job("H6_mapcache", "h6_mapcache", {}, 100)]
     for k in range(3):
         J.append(Job("H1_encoding:%d" % k, "h1_encoding", {"part": [k, 3, 7]}, 300, "H1_encoding"))
-    for k in range(6):
-        J.append(Job("H7_histories:%d" % k, "h7_histories", {"part": [k, 6, 8]}, 300, "H7_histories"))
+    if tier == "quick":
+        for k in range(6):
+            J.append(Job("H7_histories:%d" % k, "h7_histories", {"part": [k, 6, 8]}, 300, "H7_histories"))
+    else:               # one call more in every history
+        J = [j for j in J if j.name not in ("H4_getfont", "H6_mapcache")] + [Job("H4_getfont:n4", "h4_getfont", {"n": 4}, 600, "H4_getfont"), Job("H4_getfont:n5", "h4_getfont", {"n": 5}, 900, "H4_getfont"),
+                                                                           Job("H6_mapcache:n4", "h6_mapcache", {"n": 4}, 600, "H6_mapcache")]
+        for k in range(16):
+            J.append(Job("H7_histories:n4:%d" % k, "h7_histories", {"n": 4, "part": [k, 16, 10]}, 1800, "H7_histories"))
     return J
